@@ -19,7 +19,9 @@ RULE = ('random portfolios, each re-run (a) under an adversarial injective renam
 ASSUMPTIONS = ['ties between optimal solutions are allowed: solutions are compared by transporting them into the other problem (feasibility + value), not entry by entry']
 EXPLANATION = 'theorems about the model assemble; metamorphic oracle on the real code'
 
-ADV = ['1', '11', '111', 'A', 'AA', 'a b', '0', '00', 'x_internal_y', 'n (m)', '10', '01', 'disp', 'nan', 'None', 'N1', '2', '12', '21', 'asset', 'node', 'mkt1 (N1)', 'é', ' ']
+ADV = ['1', '11', '111', 'A', 'AA', 'a b', '0', '00', 'x_internal_y', 'n (m)', '10', '01', 'disp', 'nan', 'None', 'N1', '2', '12', '21', 'asset', 'node', 'mkt1 (N1)', 'é', ' ',
+       # names that look like columns / labels the package itself writes
+       'slp_step_0', 'index_assets', 'my_slp_step', 'time_step', 'bool', 'internal_asset']
 
 
 def scenarios(seed, tier):
@@ -31,6 +33,12 @@ def scenarios(seed, tier):
         names = [a['name'] for a in scen.all_asset_specs(s)]
         pool = r2.sample(ADV, min(len(ADV), len(names))) + ['z%d' % k for k in range(len(names))]
         s['amap'] = {nm: pool[k] for k, nm in enumerate(names)}
+        # wrapping assets write their own name into column names of the mapping: give them the most suspicious names
+        for a in s['assets']:
+            if a['type'] == 'StructuredAsset' and r2.random() < 0.7:
+                cand = r2.choice(['slp_step_0', 'my_slp_step', 'index_assets'])
+                if cand not in s['amap'].values():
+                    s['amap'][a['name']] = cand
         npool = r2.sample(ADV, min(len(ADV), len(s['nodes']))) + ['y%d' % k for k in range(len(s['nodes']))]
         s['nmap'] = {nm: npool[k] for k, nm in enumerate(s['nodes'])}
         perm = list(range(len(s['assets'])))
@@ -114,6 +122,14 @@ def run_case(scn, drv):
         val = -float(np.dot(rec['op'].c, x))
         if worst > 1e-5 or abs(val - V) > tol:
             viol('%s: the solution, rearranged asset by asset, is not an optimal solution of the original problem (violates %s by %.3g; value %.8g vs %.8g)' % (tag, what, worst, val, V), variant=tag, what='transport')
+        # per-asset dispatch up to relabelling: the dispatch table read out under the new labels still balances at every node
+        # and step (the solution itself was compared above; this is about what is REPORTED under the new names)
+        try:
+            vb, _ = pf.orc_nodal_balance(rv, tag=tag)
+            for v_ in vb[:1]:
+                viol('%s: %s' % (tag, v_['detail']), variant=tag, what='reported_dispatch')
+        except Exception as e:
+            viol('%s: reading the dispatch output raises %s' % (tag, type(e).__name__), variant=tag, what='output_raises')
         # per-asset cash flows up to relabelling: the cash flow reported under the new label equals minus the cost of the
         # asset's own variables (costs of the ORIGINAL problem, solution of the variant) - independent of ties
         try:
